@@ -251,6 +251,9 @@ def main(tier):
         for pks in itertools.product((False, True), repeat=k):
             run.add(AddDataTask(list(pks), True))
     run.add(AddDataTask([True, False], False), AddDataTask([], False))
+    from contracts.decoder_c import DecodeTask
+    for combined in (True, False):
+        run.add(DecodeTask('C17', combined, False))
     run.add(LemmaTask('C17:database', db_lemmas))
     run.add(RawSmtTask('C17:join-injectivity', join_lemmas()))
     run.trust('MD5 treated as injective; str() of an int / float / None contains no underscore (cross-checked by ./check selftest)',
